@@ -706,6 +706,12 @@ func (fx *FuncExec) evalLoc(env *SpecEnv, e ast.Expr) *Loc {
 			if v, ok := fx.vals[as[0]]; ok && v.Loc != nil {
 				return v.Loc
 			}
+			// a scalar local whose address escapes lives in the pointer heap
+			if v, ok := fx.vals[as[0]]; ok && v.S != "" {
+				if pt, isPtr := v.T.Underlying().(*types.Pointer); isPtr {
+					return &Loc{Kind: LPtr, Ref: v.S, T: pt.Elem(), PT: v.T}
+				}
+			}
 		}
 	}
 	fx.specFail(env, "expression is not a location")
